@@ -103,7 +103,7 @@ vf::Family specFamily(const std::string &name, std::function<ms::SpecFamily()> m
 }
 
 // ------------------------------------------------------------------ part (ii): awkward text in every string attribute position
-const std::vector<std::string> MENU = {"a&b", "a<b", "a>b", "a\"b", "a'b", "\xc3\xa9", "&amp;", "]]>", "a  b", "m?a=1&b=2", "\xc3\xa9\x31"};
+const std::vector<std::string> MENU = {"a&b", "a<b", "a>b", "a\"b", "a'b", "\xc3\xa9", "&amp;", "]]>", "a  b", "m?a=1&b=2", "\xc3\xa9\x31", "a\tb", "a\nb", "a\rb"};
 std::string charClass(const std::string &t)
 {
     if (t.find("&amp;") != std::string::npos) return "entity";
